@@ -559,7 +559,7 @@ class Session:
                 # as a literal: the printed source then names `nan` (C13 excludes division by zero, C11 non-finite constants)
                 stats["c13_out_of_scope"] = stats.get("c13_out_of_scope", 0) + 1
                 return
-            if line["impl"]["exc"] not in ("KeyError", "IndexError", "TypeError", "AttributeError", "ZeroDivisionError"):
+            if line["impl"]["exc"] not in ("KeyError", "IndexError", "TypeError", "AttributeError", "ZeroDivisionError", "OverflowError"):
                 self.fail("C13", "generated-function-raises", {"args": op["args"], "exc": line["impl"]["exc"]})
             return
         # source lists the triggered expression tasks once each, in dependency order
